@@ -164,3 +164,18 @@ package lazy
 //@   props C14 C07
 //@   requires 0 <= classIdx && classIdx <= 65536
 //@   ensures result >= 0
+
+// ---- search entry points of the lazy DFA: semantics ASSUMED (DESIGN 7.1), named by uninterpreted functions ----
+
+//@ uninterpreted spec func dfaFwdEnd(d *DFA, h []byte, at int) int
+//@ uninterpreted spec func dfaRevStart(d *DFA, h []byte, lo int, end int) int
+
+//@ trusted func (*DFA).SearchAt
+//@   requires d != nil && cache != nil && 0 <= at && at <= len(haystack)
+//@   modifies cache.*, cache.flatTrans[*], cache.stateList[*], family H:dfa/lazy.State
+//@   ensures result == dfaFwdEnd(d, haystack, at) && (result == -1 || (at <= result && result <= len(haystack)))
+
+//@ trusted func (*DFA).SearchReverse
+//@   requires d != nil && cache != nil && 0 <= start && start <= end && end <= len(haystack)
+//@   modifies cache.*, cache.flatTrans[*], cache.stateList[*], family H:dfa/lazy.State
+//@   ensures result == dfaRevStart(d, haystack, start, end) && (result == -1 || (start <= result && result <= end))
